@@ -42,7 +42,7 @@ TIE_UNITS.update({
     "Recover": {"funcs": _f("recover", "Recover.Init", "Recover.StartPost", "Recover.SendRecoverEmail", "Recover.EndPost", "Recover.invalidToken"), "tables": ["eventRegs_recover", "stateCalls_recover", "logCalls_recover", "routes_recover"]},
     "Register": {"funcs": _f("register", "Register.Init", "Register.Post", "hasString"), "tables": ["eventRegs_register", "stateCalls_register", "logCalls_register", "routes_register"]},
     "Logout": {"funcs": _f("logout", "Logout.Init", "Logout.Logout"), "tables": ["eventRegs_logout", "stateCalls_logout", "logCalls_logout", "routes_logout"]},
-    "Remember": {"funcs": _f("remember", "Remember.Init", "Remember.RememberAfterAuth", "Middleware", "Authenticate", "Remember.AfterPasswordReset", "GenerateToken"), "tables": ["consts_remember", "eventRegs_remember", "stateCalls_remember", "logCalls_remember"]},
+    "Remember": {"funcs": _f("remember", "Remember.Init", "Remember.RememberAfterAuth", "Middleware", "Authenticate", "Remember.AfterPasswordReset", "GenerateToken", "halfAuthState.Get"), "tables": ["consts_remember", "eventRegs_remember", "stateCalls_remember", "logCalls_remember"]},
     "Expire": {"funcs": _f("expire", "Setup", "timeToExpiry", "refreshExpiry", "Middleware", "expireMiddleware.ServeHTTP", "stateHider.Get"), "tables": ["eventRegs_expire", "stateCalls_expire", "pkgVars_expire"]},
     "OAuth2": {"funcs": _f("oauth2", "OAuth2.Init", "OAuth2.Start", "OAuth2.End", "RMTrue.GetShouldRemember"), "tables": ["consts_oauth2", "eventRegs_oauth2", "stateCalls_oauth2", "logCalls_oauth2", "routes_oauth2", "pkgVars_oauth2"]},
     "Totp": {"funcs": _f("otp_twofactor_totp2fa", "TOTP.Setup", "TOTP.HijackAuth", "TOTP.GetSetup", "TOTP.PostSetup", "TOTP.PostConfirm", "TOTP.PostRemove", "TOTP.PostValidate", "TOTP.validate"), "tables": ["consts_otp_twofactor_totp2fa", "eventRegs_otp_twofactor_totp2fa", "stateCalls_otp_twofactor_totp2fa", "logCalls_otp_twofactor_totp2fa", "routes_otp_twofactor_totp2fa"]},
@@ -52,6 +52,10 @@ TIE_UNITS.update({
     "Values": {"funcs": _f("defaults", "HTTPBodyReader.Read", "NewHTTPBodyReader", "HTTPFormValidator.Validate", "URLValuesToMap", "UserValues.GetShouldRemember", "Rules.Errors", "Rules.IsValid", "tallyCharacters"), "tables": ["consts_defaults", "pkgVars_defaults"]},
     "Shared": {"funcs": _f("defaults", "SMTPMailer.Send", "SMTPMailer.boundary", "NewSMTPMailer", "LogMailer.Send", "Logger.Info", "Logger.Error", "SetCore") + _f("authboss", "Authboss.Init", "Authboss.loadModule", "RegisterModule", "New"), "tables": ["pkgVars_authboss", "pkgVars_auth", "pkgVars_confirm", "pkgVars_lock", "pkgVars_logout", "pkgVars_otp", "pkgVars_otp_twofactor", "pkgVars_otp_twofactor_sms2fa", "pkgVars_otp_twofactor_totp2fa", "pkgVars_recover", "pkgVars_register", "pkgVars_remember"]},
 })
+
+# every function of the library that no unit above watches, plus the list of all function names
+# (so that an added function is noticed too): shared mutable state can be introduced anywhere (C20)
+TIE_UNITS["Rest"] = {"funcs": "*", "tables": ["funcNames"]}
 
 COMMON_TB = []
 
